@@ -70,9 +70,13 @@ func runOnce(rc *kernel.RunCtx, k *kernel.Kernel) {
 	// The value type is an interface type; for some keys the constructor's
 	// single result is the nil interface value.
 	nilKey := make([]bool, nKeys)
+	// For some keys the result is a value of a function type (a thunk), which
+	// an interface value can hold like any other.
+	thunkKey := make([]bool, nKeys)
 	for i := range slow {
 		slow[i] = tp.Choose(3)
 		nilKey[i] = tp.Bool(1, 5)
+		thunkKey[i] = !nilKey[i] && tp.Bool(1, 5)
 	}
 	holdKey, nested := -1, false
 	switch tp.Choose(4) {
@@ -81,11 +85,22 @@ func runOnce(rc *kernel.RunCtx, k *kernel.Kernel) {
 	case 2:
 		nested = nKeys > 1
 	}
-	k.Logf("once: tasks=", kernel.Itoa(nTasks), " keys=", kernel.Itoa(nKeys), " hold=", kernel.Itoa(holdKey), " nested=", btoa(nested))
+	// Fault: the first invocation of one key's constructor panics.  The
+	// statement says nothing about that key then (there is no "single result":
+	// an implementation may block the key's callers forever, hand the panic or
+	// a zero value to them, or construct again); what it still requires is
+	// that the other keys are not affected.
+	panicKey := -1
+	if !nested && tp.Bool(1, 6) {
+		panicKey = tp.Choose(nKeys)
+		rc.Stats.Fault("constructor-panic")
+	}
+	k.Logf("once: tasks=", kernel.Itoa(nTasks), " keys=", kernel.Itoa(nKeys), " hold=", kernel.Itoa(holdKey), " nested=", btoa(nested), " panic=", kernel.Itoa(panicKey))
 
 	// Scheduler-side state.
 	count := make([]int, nKeys)
 	made := make([]any, nKeys)
+	panicked := make([]int, nKeys)
 	constructed := make([]bool, nKeys)
 	returned := make([]int, nKeys)
 	inGet := make([]int, nTasks)
@@ -106,7 +121,7 @@ func runOnce(rc *kernel.RunCtx, k *kernel.Kernel) {
 		id := k.Ask("ctor.begin", func() any {
 			count[key]++
 			k.Logf("  construct key ", kernel.Itoa(key), " #", kernel.Itoa(count[key]))
-			if count[key] > 1 {
+			if count[key] > 1+panicked[key] {
 				k.Fail("constructed-twice", "OnceConstructor.Get",
 					"the constructor was invoked "+kernel.Itoa(count[key])+" times for key "+kernel.Itoa(key))
 			}
@@ -127,14 +142,38 @@ func runOnce(rc *kernel.RunCtx, k *kernel.Kernel) {
 				Pred: func() bool { return released },
 			})
 		}
-		var v any
-		if !nilKey[key] {
-			v = &val{key: key, id: id}
+		if key == panicKey && id == 1 {
+			k.Tell("ctor.panic", func() { panicked[key]++ })
+			panic(errCtor)
 		}
-		k.Tell("ctor.made", func() { made[key], constructed[key] = v, true })
+		var v any
+		var p *val
+		if !nilKey[key] {
+			p = &val{key: key, id: id}
+			v = p
+			if thunkKey[key] {
+				v = func() any { return p }
+			}
+		}
+		k.Tell("ctor.made", func() { made[key], constructed[key] = p, true })
 
 		return v
 	})
+	// same reports whether a value returned by Get is the constructed result
+	// of key (made holds the pointer behind a thunk).
+	same := func(v any, key int) bool {
+		if thunkKey[key] {
+			f, ok := v.(func() any)
+
+			return ok && f() == any(made[key])
+		}
+		if nilKey[key] {
+			return v == nil
+		}
+		p, ok := v.(*val)
+
+		return ok && any(p) == made[key]
+	}
 
 	// A stall (a Get waits for a mutex whose holder is parked): that is how an
 	// implementation whose waiters queue on a mutex (sync.Once) looks to a
@@ -152,7 +191,11 @@ func runOnce(rc *kernel.RunCtx, k *kernel.Kernel) {
 			// Benign: the key's construction has begun and no Get of it has
 			// come back yet (the holder may be parked anywhere inside the
 			// constructor or right after it).
-			if key := inGet[t.Idx]; !ctorEntered[key].Load() || returned[key] > 0 {
+			key := inGet[t.Idx]
+			if panicked[key] > 0 {
+				continue
+			}
+			if !ctorEntered[key].Load() || returned[key] > 0 {
 				return &kernel.Violation{
 					Class: "not-independent",
 					Site:  "OnceConstructor.Get",
@@ -172,6 +215,12 @@ func runOnce(rc *kernel.RunCtx, k *kernel.Kernel) {
 				key := key
 				k.Ask("inv Get", func() any { inGet[ti] = key; return nil })
 				v, pv, stack := safeGet(oc, key)
+				if pv == any(errCtor) && key == panicKey {
+					// The constructor's panic reached this caller.
+					k.Tell("ret Get (panic)", func() { inGet[ti] = -1 })
+
+					continue
+				}
 				if pv != nil {
 					k.Report("panic", kernel.PanicSite(stack), fmt.Sprintf("Get(%d) panicked: %v\n%s", key, pv, stack))
 
@@ -182,13 +231,15 @@ func runOnce(rc *kernel.RunCtx, k *kernel.Kernel) {
 					returned[key]++
 					k.Logf("  T", kernel.Itoa(ti), " Get(", kernel.Itoa(key), ") returned")
 					switch {
+					case panicked[key] > 0:
+						// Not judged, see above.
 					case !constructed[key]:
 						k.Fail("wrong-result", "OnceConstructor.Get", "Get("+kernel.Itoa(key)+") returned before the constructor had produced its result")
 					case v == nil && !nilKey[key]:
 						k.Fail("wrong-result", "OnceConstructor.Get", "Get("+kernel.Itoa(key)+") returned the zero value instead of the constructed one")
-					case v != made[key]:
+					case !same(v, key):
 						k.Fail("wrong-result", "OnceConstructor.Get", "Get("+kernel.Itoa(key)+") returned a value that is not the single constructed result")
-					case count[key] != 1:
+					case count[key]-panicked[key] != 1:
 						k.Fail("constructed-twice", "OnceConstructor.Get", "Get returned although the constructor ran "+kernel.Itoa(count[key])+" times")
 					}
 				})
@@ -203,7 +254,7 @@ func runOnce(rc *kernel.RunCtx, k *kernel.Kernel) {
 		// for another key may be blocked now.
 		rc.Stats.Probe("once-constructor-held")
 		for _, t := range k.Tasks() {
-			if t.Idx < nTasks && inGet[t.Idx] >= 0 && inGet[t.Idx] != holdKey && t.IsBlocked() {
+			if t.Idx < nTasks && inGet[t.Idx] >= 0 && inGet[t.Idx] != holdKey && panicked[inGet[t.Idx]] == 0 && t.IsBlocked() {
 				k.Fail("not-independent", "OnceConstructor.Get", "task "+t.Name+" is blocked in Get("+kernel.Itoa(inGet[t.Idx])+
 					") while only the construction of key "+kernel.Itoa(holdKey)+" is in progress")
 
@@ -217,6 +268,10 @@ func runOnce(rc *kernel.RunCtx, k *kernel.Kernel) {
 	}
 	if !k.Failed() && k.HarnessErr == "" && k.Inconclusive == "" {
 		for _, t := range k.Tasks() {
+			if !t.Daemon && !t.Exited() && t.Idx < nTasks && inGet[t.Idx] >= 0 && panicked[inGet[t.Idx]] > 0 {
+				// Callers of a key whose construction panicked may wait forever.
+				continue
+			}
 			if !t.Daemon && !t.Exited() {
 				k.Fail("lost-wakeup", "OnceConstructor.Get", "task "+t.Name+" is still blocked in Get("+kernel.Itoa(inGet[t.Idx])+
 					") although no construction is in progress")
@@ -265,6 +320,8 @@ func runOnceManyKeys(rc *kernel.RunCtx, k *kernel.Kernel) {
 	rc.NonTrivial = false
 }
 
+var errCtor = errors.New("verif: constructor failed")
+
 func safeGet(oc *syncutil.OnceConstructor[int, any], key int) (v any, pv any, stack string) {
 	defer func() {
 		if r := recover(); r != nil {
@@ -311,7 +368,7 @@ func runSema(rc *kernel.RunCtx, k *kernel.Kernel, misuse bool) {
 	inAcq := make([]bool, nTasks)
 	inRel := make([]bool, nTasks)
 	cancelled := make([]bool, nTasks)
-	issuedDone := make([]bool, nTasks) // Acquire issued on an already done context
+	issuedDone := make([]bool, nTasks)    // Acquire issued on an already done context
 	relSinceCancel := make([]int, nTasks) // Release calls invoked since the task's context was cancelled
 	tasks := make([]*kernel.Task, nTasks)
 
